@@ -410,3 +410,103 @@ func bucket(n int) string {
 	}
 	return ">50"
 }
+
+// genGrowth turns a generated history into one whose machine starts with the
+// states of `in` and is grown by SetSchema right before a later top-level
+// call. New states are named Za.. (they sort after every old name and come
+// after Exception in the state order, so the topology of the old states is
+// the same before and after), never Auto, Require only earlier new states (no
+// new Require cycle, old states keep their place in the topology); no old state
+// refers to a new one.
+func genGrowth(r *Rng, o GenOpt) *HistInput {
+	o.Health, o.SuffixPct, o.DanglingPct, o.QueueLimit = false, 0, 0, false
+	if o.MinCalls < 4 {
+		o.MinCalls = 4
+	}
+	in := genHistory(r, o)
+	nOld := len(in.States)
+	nNew := r.Range(2, 4)
+	total := nOld + nNew
+	rel := r.Range(8, 35)
+	for k := 0; k < nNew; k++ {
+		g := HState{Name: "Z" + string(stateLetters[k]), Multi: r.Chance(20)}
+		me := nOld + k
+		for j := 0; j < total; j++ {
+			if j == me || j == nOld-1 && !r.Chance(20) {
+				continue // few relations towards Exception
+			}
+			// Require only earlier NEW states: a Require of an old state would put
+			// that state into the topology where it was not before, and the old
+			// states would sort differently before and after the growth
+			if j < me && j >= nOld && r.Chance(rel+30) {
+				g.Require = append(g.Require, j)
+			}
+			if r.Chance(rel) {
+				g.Add = append(g.Add, j)
+			}
+			if r.Chance(rel) {
+				g.Remove = append(g.Remove, j)
+			}
+			if !o.NoAfter && r.Chance(rel) {
+				g.After = append(g.After, j)
+			}
+		}
+		g.Remove = intsMinus(g.Remove, g.Require)
+		in.Grow = append(in.Grow, g)
+	}
+	// at least one transition with the old schema first
+	in.GrowAt = r.Range(1, len(in.Calls)-1)
+	for i := in.GrowAt; i < len(in.Calls); i++ {
+		if r.Chance(70) {
+			c := genCall(r, total+0, o, false)
+			// genStates draws user states below n-1 and Exception as n-1: remap so
+			// that new states are drawn as well
+			for k, x := range c.States {
+				if x >= nOld-1 {
+					c.States[k] = nOld + r.Intn(nNew)
+				} else if r.Chance(40) {
+					c.States[k] = nOld + r.Intn(nNew)
+				}
+			}
+			// together with what they Require, in one mutation
+			if (c.Kind == "add" || c.Kind == "set") && len(c.States) > 0 && c.States[0] >= nOld {
+				for _, q := range in.Grow[c.States[0]-nOld].Require {
+					c.States = appendUniq(c.States, q)
+				}
+			}
+			c.States = uniqInts(c.States)
+			in.Calls[i] = c
+		}
+	}
+	// (the first binding of a machine re-adds a pending error: a later binding is
+	// only added to machines that already have one)
+	if o.Handlers && len(in.Bindings) > 0 && r.Chance(80) {
+		var keys []HKey
+		pct := r.Range(30, 80)
+		for k := 0; k < nNew; k++ {
+			a := nOld + k
+			for _, kd := range []string{"exit", "enter", "self", "end", "state"} {
+				if r.Chance(pct) {
+					keys = append(keys, HKey{K: kd, A: a})
+				}
+			}
+			for j := 0; j < total; j++ {
+				if j != a && r.Chance(pct/4) {
+					keys = append(keys, HKey{K: "trans", A: a, B: j})
+				}
+			}
+		}
+		if len(keys) > 0 {
+			in.GrowBindings = [][]HKey{keys}
+		}
+	}
+	return in
+}
+
+func uniqInts(l []int) []int {
+	var ret []int
+	for _, x := range l {
+		ret = appendUniq(ret, x)
+	}
+	return ret
+}
